@@ -33,6 +33,7 @@ def confirm(seed):
 
 def main():
     root = sys.argv[1]
+    offset = int(sys.argv[sys.argv.index('--offset') + 1]) if '--offset' in sys.argv else 0
     seeds = sorted(glob.glob(os.path.join(root, 'C*', 'seed', '[0-9]')))
     head = subprocess.run('git -C /repo rev-parse --short HEAD', shell=True, capture_output=True, text=True).stdout.strip()
     with ThreadPoolExecutor(max_workers=8) as ex:
@@ -43,7 +44,7 @@ def main():
             print(prop, n, 'confirmed' if ok else f'NOT-CONFIRMED {res}', flush=True)
             if not ok:
                 continue
-            dst = f'/verif/refactors/{prop}-{n}'
+            dst = f'/verif/refactors/{prop}-{int(n) + offset}'
             os.makedirs(dst, exist_ok=True)
             shutil.copy(os.path.join(seed, 'patch.diff'), dst)
             shutil.copy(os.path.join(seed, 'demo.py'), dst)
